@@ -20,8 +20,8 @@ U = ["PYRO:o1@h:1", "PYRO:o2@h:2"]
 
 def alphabet(tier):
     quick = tier == "quick"
-    names = ["a", "A", "a_", "a%"] if quick else ["a", "A", "ab", "a_", "a%", "é", ""]
-    metas = [None, ("t",), ("T", "t")] if quick else [None, ("t",), ("T", "t"), ("%",), ("",)]
+    names = ["a", "A", "a_", "a%", "a?"] if quick else ["a", "A", "ab", "a_", "a%", "a?", "a*", "a[b]", "é", ""]
+    metas = [None, ("t",), ("T", "t"), ("",)] if quick else [None, ("t",), ("T", "t"), ("%",), ("",), ("", "t")]
     muts = []
     for n in names + [NSNAME]:
         for ui, u in enumerate(U):
@@ -29,13 +29,13 @@ def alphabet(tier):
                 for m in metas:
                     if n == NSNAME and (ui or m):
                         continue
-                    if not quick or not (ui == 1 and m == ("T", "t")):
+                    if not quick or not (ui == 1 and m in (("T", "t"), ("",))):
                         muts.append(("register", n, u, safe, m))
         muts.append(("remove_name", n))
         if n != NSNAME:
             for m in metas:
                 muts.append(("set_metadata", n, m))
-    for p in (["a", "A", "a_", "a%", "Pyro"] if quick else ["a", "A", "a_", "a%", "ab", "Pyro", "P", "é", "%", "_"]):
+    for p in (["a", "A", "a_", "a%", "a?", "a*", "Pyro"] if quick else ["a", "A", "a_", "a%", "a?", "a*", "a[", "a[b", "ab", "Pyro", "P", "é", "%", "_", "*", "?"]):
         muts.append(("remove_prefix", p))
     for r in (["a.*", ".*", "["] if quick else ["a.*", ".*", "[", "A|a", "a_", "a%", "^a$", "(?i)a"]):
         muts.append(("remove_regex", r))
@@ -47,7 +47,7 @@ def alphabet(tier):
     for n in names + [NSNAME, "zz"]:
         qs.append(("lookup", n, False))
         qs.append(("lookup", n, True))
-    for p in ["a", "A", "a_", "a%", "%", "_", "P", "", "ab", "é"]:
+    for p in ["a", "A", "a_", "a%", "%", "_", "P", "", "ab", "é", "a?", "a*", "a[", "a[b]", "*", "?", "[a]"]:
         qs.append(("list_prefix", p, False))
         qs.append(("list_prefix", p, True))
     for r in ["a.*", "A", "a_", "a%", "[", ".*", "(?i)a$"]:
